@@ -57,21 +57,21 @@ Definition op_of (z : Z) : option op :=
   else if k =? 6 then Some (OIsAsserted w)
   else None.
 
-Fixpoint prog_of (l : list Z) : option (list op) :=
+Fixpoint zprog_of (l : list Z) : option (list op) :=
   match l with
   | [] => Some []
-  | z :: r => match op_of z, prog_of r with Some o, Some p => Some (o :: p) | _, _ => None end
+  | z :: r => match op_of z, zprog_of r with Some o, Some p => Some (o :: p) | _, _ => None end
   end.
 Fixpoint progs_of (l : list (list Z)) : option (list (list op)) :=
   match l with
   | [] => Some []
-  | z :: r => match prog_of z, progs_of r with Some o, Some p => Some (o :: p) | _, _ => None end
+  | z :: r => match zprog_of z, progs_of r with Some o, Some p => Some (o :: p) | _, _ => None end
   end.
 
 (* the schedule point at which a model thread is stopped *)
 Definition pos_of (st : state) (t : nat) : Z :=
-  match pcs st t with
-  | PIdle => match progs st t with [] => 0 | _ => 900 end
+  match pc_of st t with
+  | PIdle => match prog_of st t with [] => 0 | _ => 900 end
   | PAwLoad _ => 110 | PAwCas _ _ => 140
   | PNwLoad1 _ => 210 | PNwStoreP _ => 260 | PNwLoad2 _ => 211 | PNwStore0 _ => 261
   | PNwPark _ => 280 | PNwParked _ => 1 | PNwSwap _ => 230
@@ -126,7 +126,7 @@ Definition in_done (p : pc) : bool :=
 Definition model_ob (st : state) (nw : nat) (t : nat) (evs : list event) : ob :=
   (pos_of st t, pos_of st 0, retv_of evs, ws_pack st nw, gclass (wg st),
    ids_pack st (shared st), ids_pack st (local st),
-   if in_done (pcs st 0) then -1 else ids_pack st (allw st)).
+   if in_done (pc_of st 0) then -1 else ids_pack st (allw st)).
 
 Definition ob_eqb (a b : ob) : bool :=
   match a, b with
@@ -164,7 +164,7 @@ Definition corr (c : case) : Z :=
       match progs_of progs with
       | None => 1
       | Some ps =>
-          match follow (init (progs_of_list ps)) (Z.to_nat nw) sched (obs_of fobs) with
+          match follow (init ps) (Z.to_nat nw) sched (obs_of fobs) with
           | None => 1
           | Some sf => if maximal && negb (none_enabled sf (length ps)) then 1 else 0
           end
@@ -206,13 +206,6 @@ Record mst := mkM {
   m_bad : bool;
   m_woke : bool; m_done : bool
 }.
-
-Fixpoint lset {A} (l : list A) (i : nat) (x : A) : list A :=
-  match l, i with
-  | [], _ => []
-  | _ :: r, O => x :: r
-  | a :: r, S j => a :: lset r j x
-  end.
 
 Definition okind (z : Z) : Z := z / 1000000.
 Definition owk (z : Z) : nat := Z.to_nat ((z / 1000) mod 1000).
